@@ -43,19 +43,20 @@ def first_diff(a, b, path=''):
 def check_model(text, exp, renderer, acc, case):
     acc.n += 1
     acc.validated += 1
-    a = I.parse(text, default=renderer.L.dialect, acc=acc)
-    if a[0] != 'ok':
-        acc.violation('well-formed-rejected', case, 'well-formed document rejected: %s' % (a[1],))
-        return
     acc.nontrivial += 1
-    got, want = locs(a[1]), locs(exp)
-    if got != want:
-        d = first_diff(got, want)
-        p, x, y = d if d else ('?', None, None)
-        kind = [s for s in p.split('/') if s and not s.isdigit() and s not in ('location', 'line', 'column')]
-        sig = 'location-' + (kind[-1] if kind else 'root') + ('-line' if p.endswith('line') else '-column')
-        acc.violation(sig, case, 'location differs from where the renderer put the element, at %s' % p, observed=x, expected=y)
-        return
+    want = locs(exp)
+    for route, a in I.parse_routes(text, renderer.L.dialect, acc):
+        if a[0] != 'ok':
+            acc.violation('well-formed-rejected', case, '%s: well-formed document rejected: %s' % (route, a[1]))
+            return
+        got = locs(a[1])
+        if got != want:
+            d = first_diff(got, want)
+            p, x, y = d if d else ('?', None, None)
+            kind = [s for s in p.split('/') if s and not s.isdigit() and s not in ('location', 'line', 'column')]
+            sig = 'location-' + (kind[-1] if kind else 'root') + ('-line' if p.endswith('line') else '-column')
+            acc.violation(sig, case, '%s: location differs from where the renderer put the element, at %s' % (route, p), observed=x, expected=y)
+            return
     slicing(text, a[1], acc, case)
 
 
